@@ -380,6 +380,47 @@ def session_sandboxes_part(ctx, rp):
                    'are staged into the sandbox of the pilot they are bound to' % n, 'tie', True, '')
 
 
+def run_two_bulks(rp, what):
+    """two bulks served by the SAME stagers; between them a directory the first bulk's staging created goes away (the
+    application renames its results directory; a task removes a directory it shares): the second bulk's directives name
+    it again and are carried out all the same.  Returns the final states and whether the second bulk's targets exist."""
+    root = tempfile.mkdtemp(prefix='c11_')
+    try:
+        tree = stagelib.Tree(root)
+        with open(tree.psbox + '/shared.dat', 'w') as f: f.write('S')
+        stagers = stagelib.make_stagers(rp, tree)
+        def task(k):
+            d = {'executable': '/bin/true', 'stage_on_error': False,
+                 'input_staging': [{'source': 'pilot:///shared.dat', 'target': 'pilot:///pool/in_%d.dat' % k, 'action': 'Copy'}],
+                 'output_staging': ['out.dat > results/r_%d.dat' % k]}
+            return tree.task_dict(rp, 'task.%06d' % k, d)
+        res = []
+        for k in (0, 1):
+            t = task(k)
+            final, rec = stagelib.run_pipeline(rp, tree, [t], {t['uid']: 'DONE'}, {t['uid']: {'out.dat': 'O%d' % k}}, stagers=stagers)
+            res.append({'state': final.get(t['uid']),
+                        'in': os.path.exists(tree.psbox + '/pool/in_%d.dat' % k), 'out': os.path.exists(tree.client + '/results/r_%d.dat' % k)})
+            if k == 0:
+                if what in ('client', 'both'): os.rename(tree.client + '/results', tree.client + '/results.first')
+                if what in ('pilot', 'both'):  shutil.rmtree(tree.psbox + '/pool')
+        return res
+    finally:
+        shutil.rmtree(root, ignore_errors=True)
+
+
+def two_bulks_part(ctx, rp):
+    for what in ('none', 'client', 'pilot', 'both'):
+        res = run_two_bulks(rp, what)
+        ctx.case({'two_bulks': what}, nontrivial=what != 'none')
+        want = {'state': 'DONE', 'in': True, 'out': True}
+        if res[0] != want or res[1] != want:
+            ctx.fail('two-bulks:directive-into-a-directory-that-went-away-not-carried-out',
+                     'between two bulks served by the same stagers the %s director%s created by the first went away; the bulks ended %s'
+                     % ({'none': 'no', 'client': 'results', 'pilot': 'pool', 'both': 'results and pool'}[what], 'y' if what in ('client', 'pilot') else 'ies', res),
+                     {'kind': 'two_bulks', 'what': what})
+    ctx.obligation('two bulks through the same four stagers with the directories of the first removed in between: all directives carried out', 'tie', True, '')
+
+
 def two_sessions_part(ctx, rp):
     n = 0
     for _ in range(ctx.n(6, 60)):
@@ -400,6 +441,7 @@ def run(ctx):
     rng = ctx.rng
     two_sessions_part(ctx, rp)
     session_sandboxes_part(ctx, rp)
+    two_bulks_part(ctx, rp)
     import radical.utils as ru
     from radical.pilot.staging_directives import expand_staging_directives, complete_url
     src = os.path.join(os.path.dirname(os.path.dirname(rp.__file__)), 'pilot') if False else os.path.dirname(rp.__file__)
@@ -654,6 +696,9 @@ CORPUS = [_c_tarball, _c_on_error, _c_missing, _c_existing_file]
 def replay(ctx, data):
     rp = rpload.load()
     i = data['input']
+    if i.get('kind') == 'two_bulks':
+        res = run_two_bulks(rp, i['what']); print(res)
+        return all(r == {'state': 'DONE', 'in': True, 'out': True} for r in res)
     if i.get('kind') == 'session_sandboxes':
         res = run_session_sandboxes(rp, i['npilots'], i['order'])
         bad = session_sandboxes_monitor(res)
